@@ -36,6 +36,8 @@ pub enum Token<'i> {
     CloseParenthesis,
     Semicolon,
     Comma,
+    Colon,
+    QuotedString(CowRcStr<'i>),
     Other(u32),
 }
 /// the lifetime-free value of a token
@@ -43,7 +45,7 @@ pub enum TokV {
     Ident(Seq<char>), AtKeyword(Seq<char>), Function(Seq<char>), Delim(char),
     Dimension { has_sign: bool, value: f32, int_value: Option<i32>, unit: Seq<char> },
     WhiteSpace(Seq<char>), Comment(Seq<char>),
-    CurlyBracketBlock, SquareBracketBlock, ParenthesisBlock, CloseCurlyBracket, CloseSquareBracket, CloseParenthesis, Semicolon, Comma, Other(u32),
+    CurlyBracketBlock, SquareBracketBlock, ParenthesisBlock, CloseCurlyBracket, CloseSquareBracket, CloseParenthesis, Semicolon, Comma, Colon, QuotedString(Seq<char>), Other(u32),
 }
 pub open spec fn tokv(t: Token) -> TokV {
     match t {
@@ -62,6 +64,8 @@ pub open spec fn tokv(t: Token) -> TokV {
         Token::CloseParenthesis => TokV::CloseParenthesis,
         Token::Semicolon => TokV::Semicolon,
         Token::Comma => TokV::Comma,
+        Token::Colon => TokV::Colon,
+        Token::QuotedString(s) => TokV::QuotedString(s@),
         Token::Other(k) => TokV::Other(k),
     }
 }
